@@ -2,11 +2,15 @@
 (* Exhaustive bounded model for C16: every text of up to MaxLen graphemes   *)
 (* over the class alphabet {letter, letter+combining mark, space, hyphen,   *)
 (* newline, wide ideograph, wide closing punctuation, wide opening          *)
-(* punctuation, no-break space} (constant Classes picks a subset) and every *)
-(* width 0..MaxWidth is wrapped by the transcribed scanner (WrapScan) and   *)
-(* the result judged by the oracle (WrapRel).  Break opportunities follow   *)
-(* an abridgement of UAX #14 (LB4-7, LB12, LB12a, LB13, LB14, LB18, LB21,   *)
-(* LB28, LB31).  RLAgrees: the run-length oracle (WrapRelRL) gives the      *)
+(* punctuation, no-break space, digit} (constant Classes picks a subset)    *)
+(* and every width 0..MaxWidth is wrapped by the transcribed scanner        *)
+(* (WrapScan) and the result judged by the oracle (WrapRel).  Break         *)
+(* opportunities follow an abridgement of UAX #14 (LB4-7, LB12, LB12a,      *)
+(* LB13, LB14, LB18, LB21, LB23, LB25, LB28, LB31).  The scanner is run on  *)
+(* the segmenter's view of the text (SegFacts: the line segmenter the       *)
+(* scanners are built on gives no break in front of a hyphen followed by a  *)
+(* digit, whatever precedes the hyphen, even a line terminator), the oracle *)
+(* on the facts.  RLAgrees: the run-length oracle (WrapRelRL) gives the     *)
 (* verdict of WrapRel on the scanner's lines and on damaged copies of them. *)
 (* ASSUMEs are unit checks of the oracle itself (it must reject outputs     *)
 (* that lose, reorder, overflow, split or ignore a break).                  *)
@@ -14,7 +18,8 @@ EXTENDS WrapScan, TLC
 CONSTANTS MaxLen, MaxWidth, Classes
 
 \* classes: 1 letter, 2 letter+mark, 3 space, 4 hyphen, 5 newline, 6 ideograph, 7 wide closing punct,
-\* 8 wide opening punct (glued to what follows), 9 no-break space (white space, glued on both sides)
+\* 8 wide opening punct (glued to what follows), 9 no-break space (white space, glued on both sides),
+\* 10 digit (not a letter; a hyphen and the digit behind it stay together)
 CW(c) == IF c \in {6, 7, 8} THEN 2 ELSE IF c = 5 THEN 0 ELSE 1
 CWs(c) == IF c \in {3, 5, 9} THEN 1 ELSE 0
 CNl(c) == IF c = 5 THEN 1 ELSE 0
@@ -33,11 +38,19 @@ Glue(s, i) ==
   ELSE IF Before(s, i) = 8 THEN TRUE  \* LB14 never after opening punctuation, even after spaces
   ELSE IF x = 3 THEN FALSE            \* LB18 break after spaces
   ELSE IF y = 4 THEN TRUE             \* LB21 never before a hyphen
-  ELSE IF x \in {1, 2} /\ y \in {1, 2} THEN TRUE   \* LB28
+  ELSE IF x = 4 /\ y = 10 THEN TRUE   \* LB25 hyphen x digit
+  ELSE IF x \in {1, 2, 10} /\ y \in {1, 2, 10} THEN TRUE   \* LB23, LB25, LB28
   ELSE FALSE                          \* LB31
 Facts(s) == [i \in 1..Len(s) |->
    <<10 * i + s[i], CW(s[i]), CWs(s[i]), CNl(s[i]), CLt(s[i]),
      IF i < Len(s) /\ Glue(s, i) THEN 1 ELSE 0, i % 3>>]
+
+\* what the scanner's line segmenter reports: as Facts, but never a break in front of a hyphen that a
+\* digit follows (uniseg v0.4.4, LB25 look-ahead) - not even behind a line terminator
+SegGlue(s, i) == Glue(s, i) \/ (i + 2 <= Len(s) /\ s[i + 1] = 4 /\ s[i + 2] = 10)
+SegFacts(s) == [i \in 1..Len(s) |->
+   <<10 * i + s[i], CW(s[i]), CWs(s[i]), CNl(s[i]), CLt(s[i]),
+     IF i < Len(s) /\ SegGlue(s, i) THEN 1 ELSE 0, i % 3>>]
 
 VARIABLES cls, width
 vars == <<cls, width>>
@@ -46,7 +59,7 @@ Next == Len(cls) < MaxLen /\ \E c \in Classes : cls' = Append(cls, c) /\ UNCHANG
 Spec == Init /\ [][Next]_vars
 
 Verdict == LET inp == Facts(cls)
-               r == Lines(inp, width)
+               r == Lines(SegFacts(cls), width)
            IN Why(inp, width, r.done, r.lines)
 \* width 0 emits nothing (recorded finding); everything else must satisfy the oracle
 Holds == Verdict = "" \/ (width = 0 /\ Verdict \in {"conserve:w0", "hardbreak:w0"})
@@ -82,6 +95,25 @@ RLAgrees ==
        /\ RL!Why0(Pack(inp), width, done, [i \in 1..Len(ls) |-> Pack(ls[i])]) = y
        /\ RL!Why0(Ones(inp), width, done, [i \in 1..Len(ls) |-> Ones(ls[i])]) = y
 
+\* the same for the drawing demand: the rows painted from the scanner's lines, and a copy with the first
+\* cell of the first row blanked, are judged alike against the lines and the damaged copies of them
+Widest(ls) == LET ws == {SumLW(ls[i]) : i \in 1..Len(ls)} IN IF ws = {} THEN 0 ELSE CHOOSE x \in ws : \A y \in ws : y <= x
+Paint(ls, sw) == [r \in 1..Len(ls) |-> [col \in 1..sw |->
+   LET l == ls[r]
+       js == {j \in 1..Len(l) : Off(l, j) + 1 = col /\ LW(l[j]) > 0 /\ ~LWs(l[j])}
+   IN IF js = {} THEN <<0, 0, 0>> ELSE LET j == CHOOSE j \in js : TRUE IN <<LG(l[j]), LW(l[j]), LSt(l[j])>>]]
+DrawAgrees ==
+  LET inp == FactsSame(cls)
+      r == Lines(inp, width)
+      sw == Widest(r.lines)
+      rows == Paint(r.lines, sw)
+      blanked == IF rows # <<>> /\ sw > 0 THEN <<[rows[1] EXCEPT ![1] = <<0, 0, 0>>]>> \o Tail(rows) ELSE rows
+  IN /\ DrawOK(r.lines, rows, sw, Len(rows))
+     /\ \A ls \in Damaged(r.lines) : \A rw \in {rows, blanked} :
+          LET y == DrawOK(ls, rw, sw, Len(rw)) IN
+          /\ RL!DrawOK([i \in 1..Len(ls) |-> Pack(ls[i])], rw, sw, Len(rw)) = y
+          /\ RL!DrawOK([i \in 1..Len(ls) |-> Ones(ls[i])], rw, sw, Len(rw)) = y
+
 \* ---- oracle unit checks ---------------------------------------------------
 a == <<1, 1, 0, 0, 1, 1, 0>>   b == <<2, 1, 0, 0, 1, 1, 0>>   c == <<3, 1, 0, 0, 1, 0, 0>>
 sp == <<0, 1, 1, 0, 0, 0, 0>>  nl == <<9, 0, 1, 1, 0, 0, 0>>  d == <<4, 1, 0, 0, 1, 0, 0>>
@@ -107,6 +139,10 @@ ASSUME Why(<<nl, c>>, 5, TRUE, <<<<>>, <<Lc>>>>) = ""
 ASSUME Why(<<c, nl>>, 5, TRUE, <<<<Lc>>>>) = ""
 ASSUME Why(<<nl>>, 5, TRUE, <<>>) = "hardbreak"
 ASSUME Why(<<c>>, 0, TRUE, <<>>) = "conserve:w0"
+Lnl == <<9, 0, 1, 0>>
+ASSUME Why(<<c, nl, d>>, 5, TRUE, <<<<Lc, Lnl, Ld>>>>) = "hardbreak" /\ TermInside(<<c, nl, d>>, <<<<Lc, Lnl, Ld>>>>)
+ASSUME Why(<<nl, d>>, 5, TRUE, <<<<Lnl, Ld>>>>) = "hardbreak" /\ TermInside(<<nl, d>>, <<<<Lnl, Ld>>>>)
+ASSUME Why(<<c, nl, d>>, 5, TRUE, <<<<Lc, Lnl>>, <<Ld>>>>) = "" /\ ~TermInside(<<c, nl, d>>, <<<<Lc, Lnl>>, <<Ld>>>>)
 \* the run-length oracle on texts too long for the other one (item = <<g, w, ws, nl, lt, gl, st, n>>)
 ra(n) == <<1, 1, 0, 0, 1, 1, 0, n>>   rz(n) == <<1, 1, 0, 0, 1, 0, 0, n>>   rsp(n) == <<0, 1, 1, 0, 0, 0, 0, n>>
 rnl == <<9, 0, 1, 1, 0, 0, 0, 1>>     rwd(n) == <<5, 2, 0, 0, 0, 0, 0, n>>
@@ -129,6 +165,15 @@ ASSUME RL!Why0(<<ra(39999), rz(1), rnl, rz(1)>>, 50000, TRUE, <<<<Ra(40000)>>, <
 ASSUME RL!Why0(<<ra(39999), rz(1), rnl, rz(1)>>, 50000, TRUE, <<<<Ra(40001)>>>>) = "hardbreak"
 ASSUME RL!Why0(<<ra(39999), rz(1), rnl, rnl, rz(1)>>, 50000, TRUE, <<<<Ra(40000)>>, <<Ra(1)>>>>) = "hardbreak"
 ASSUME RL!Why0(<<ra(39999), rz(1), rnl, rnl, rz(1)>>, 50000, TRUE, <<<<Ra(40000)>>, <<>>, <<Ra(1)>>>>) = ""
+\* a line of two letters and 70000 spaces drawn 10 columns wide / on a surface without columns / one column wide
+blank == <<0, 0, 0>>
+ASSUME RL!DrawOK(<<<<Ra(2), Rsp(70000)>>>>, <<<< <<1, 1, 0>>, <<1, 1, 0>>, blank, blank, blank, blank, blank, blank, blank, blank >>>>, 10, 1)
+ASSUME ~RL!DrawOK(<<<<Ra(2), Rsp(70000)>>>>, <<<<>>>>, 0, 1)
+ASSUME ~RL!DrawOK(<<<<Ra(2), Rsp(70000)>>>>, <<<< <<1, 1, 0>> >>>>, 1, 1)
+ASSUME ~RL!DrawOK(<<<<Ra(2), Rsp(70000)>>>>, <<<< <<1, 1, 0>>, <<1, 1, 0>>, <<1, 1, 0>> >>>>, 3, 1)
+ASSUME ~RL!DrawOK(<<<<Ra(2), Rsp(70000)>>>>, <<<< <<1, 1, 0>>, <<1, 1, 0>> >>, <<blank, blank>>>>, 2, 2)
+ASSUME RL!DrawOK(<<<<Rwd(2), Ra(1)>>, <<>>>>, <<<< <<5, 2, 0>>, blank, <<5, 2, 0>>, blank, <<1, 1, 0>> >>, <<blank, blank, blank, blank, blank>>>>, 5, 2)
+ASSUME ~RL!DrawOK(<<<<Rwd(2), Ra(1)>>>>, <<<< <<5, 2, 0>>, <<5, 2, 0>>, blank, blank, <<1, 1, 0>> >>>>, 5, 1)
 ASSUME DrawOK(<<<<Lc, Lsp, Lwd>>, <<>>>>, <<<< <<3, 1, 0>>, <<0, 1, 0>>, <<5, 2, 0>>, <<0, 0, 0>> >>, << <<0, 0, 0>>, <<0, 0, 0>>, <<0, 0, 0>>, <<0, 0, 0>> >>>>, 4, 2)
 ASSUME ~DrawOK(<<<<Lc, Lsp, Lwd>>>>, <<<< <<3, 1, 0>>, <<5, 2, 0>>, <<0, 0, 0>>, <<0, 0, 0>> >>>>, 4, 1)
 ASSUME ~DrawOK(<<<<Lc>>, <<Ld>>>>, <<<< <<3, 1, 0>>, <<4, 1, 0>> >>>>, 2, 1)
